@@ -14,13 +14,24 @@
    (the specification proper), chk = true: derivations in which no file is re-entered while it is
    being expanded.  Include graph: [edge], [chain], [reach], [cyclic_from], [acyclic_from].
 
-   NOT proved here: the text-level clause of the property ("the same tree as parsing the
-   textually inlined text").  It needs compositionality of the parser at object boundaries,
-   which belongs to the parser model.  That clause is checked on the implementation by the
-   oracle of the correspondence stream (harness/streams/c13.py builds the inlined text by
-   textual substitution and compares parse(inlined) with the include-processed tree). *)
+   The text-level clause ("the same tree as parsing the textually inlined text"; Proofs/ParserCompose.v,
+   Proofs/IncludeText.v).  The parser is compositional at object boundaries (C13_parse_app): if a parses,
+   ends with a newline, holds no #phil directive and does not end in a continuation backslash, and the
+   first token of b cannot continue a's last value ([value_stops b]: e.g. b starts with a name; a quoted
+   word at the start of b WOULD continue it - boundary Example), then parse (a ++ b) is parse a followed
+   by parse b up to ids and line numbers ([erase_obj]: everything else, all attributes included, is
+   kept).  Hence replacing one include line by the file's text and replacing the include object by the
+   file's tree commute (C13_include_line_inline), and for files given as a list of segments (plain
+   text piece / top-level include line) the tree the model of parse(process_includes=True) returns is
+   the parse of the recursively inlined text, any depth of nesting between files, diamonds allowed
+   (C13_includes_text_toplevel_partial).  _partial: include lines at top level of each file only -
+   an include line inside a scope is outside the relation (Example); that case and 'include scope'
+   are checked on the implementation by the oracle of the correspondence stream (harness/streams/c13.py
+   builds the inlined text by textual substitution and compares parse(inlined) with the
+   include-processed tree). *)
 From Coq Require Import List Ascii String.
-From Phil Require Import Base Tree Include IncludeSpec IncludeProofs IncludeExamples.
+From Phil Require Import Base Tokenizer Tree Parser Include IncludeSpec IncludeProofs IncludeExamples
+  ShowErase ParserCompose IncludeText.
 Import ListNotations.
 
 (* whatever the model returns is an expansion in the sense of the specification - for every
@@ -108,3 +119,58 @@ Example C13_example_double_slash :
   includes_file isc0 fs_ds cwd_x pa =
   UErr k_cycle (s_ "/r/a.phil, //r/sub/b.phil, //r/a.phil, //r/sub/b.phil") 0.
 Proof. exact ex_dslash. Qed.
+
+(* ---------- the text-level clause *)
+(* the parser is compositional at object boundaries *)
+Theorem C13_parse_app : forall o a b la lb,
+  parse o a = Ok la -> ends_nl a = true -> occurs intro a = false -> lnb a <> Some bs ->
+  value_stops b -> parse o b = Ok lb ->
+  exists l, parse o (a ++ b) = Ok l /\ map erase_obj l = map erase_obj (la ++ lb).
+Proof. exact parse_app. Qed.
+Print Assumptions C13_parse_app.
+
+(* an error of the second part is the error of the whole (attribute errors excepted: an attribute
+   at the start of b attaches to the last definition of a) *)
+Theorem C13_parse_app_error : forall o a b la kd t ln,
+  parse o a = Ok la -> ends_nl a = true -> occurs intro a = false -> lnb a <> Some bs ->
+  value_stops b -> parse o b = UErr kd t ln -> kd <> k_uda ->
+  exists ln', parse o (a ++ b) = UErr kd t ln'.
+Proof. exact parse_app_err. Qed.
+Print Assumptions C13_parse_app_error.
+
+(* one include line: inlining the text and splicing the tree commute *)
+Theorem C13_include_line_inline : forall o pre name content post lpre lc lpost,
+  parse o pre = Ok lpre -> ends_nl pre = true -> occurs intro pre = false -> lnb pre <> Some bs ->
+  plain_name name = true ->
+  parse o content = Ok lc -> ends_nl content = true -> occurs intro content = false ->
+  lnb content <> Some bs -> value_stops content ->
+  parse o post = Ok lpost -> value_stops post ->
+  (exists l, parse o (pre ++ content ++ post) = Ok l
+             /\ map erase_obj l = map erase_obj (lpre ++ lc ++ lpost))
+  /\ (exists l, parse o (pre ++ incl_line name ++ post) = Ok l
+                /\ map erase_obj l = map erase_obj (lpre ++ [incl_obj name 0 0] ++ lpost)).
+Proof. exact include_line_inline. Qed.
+Print Assumptions C13_include_line_inline.
+
+(* whole files, any depth: the include-processed tree is the parse of the inlined text *)
+Theorem C13_includes_text_toplevel_partial : forall o isc tt cwd, good_table o tt ->
+  forall file ps, FlatF tt cwd [] file ps ->
+  exists t l, includes_file isc (fs_of o tt) cwd file = Ok t
+              /\ parse o (List.concat ps) = Ok l /\ map erase_obj l = map erase_obj t.
+Proof. exact includes_text_toplevel_partial. Qed.
+Print Assumptions C13_includes_text_toplevel_partial.
+
+(* non-vacuity: three files (a includes sub/b and c; b includes ../c), attributes, quoted words, a
+   disabled definition; and the boundary of the relation *)
+Example C13_includes_text_example : exists t l,
+  includes_file isc0 (fs_of [] ex_tt) ex_cwd ex_pa = Ok t
+  /\ parse [] ex_inlined = Ok l /\ map erase_obj l = map erase_obj t.
+Proof. exact ex_includes_text. Qed.
+Example C13_table_is_good : good_table [] ex_tt.
+Proof. exact ex_good. Qed.
+Example C13_scope_include_not_covered :
+  forallb noinc (ok_list (parse [] (s_ "s {
+  include file c.phil
+}
+"))) = false.
+Proof. exact ex_scope_include_not_covered. Qed.
